@@ -350,7 +350,7 @@ def make_probe(cls, sched_ref):
             if name[:3] == '_v_':
                 s = sched_ref[0]
                 if s is not None:
-                    s.yield_point('w', name)
+                    s.yield_point('d', name)
             object.__delattr__(self, name)
     Probe.__name__ = cls.__name__
     Probe.__qualname__ = cls.__qualname__
